@@ -6,7 +6,7 @@
 namespace vp { namespace lin {
 using namespace Fastor; using la::LD; using la::Mat;
 
-static const LD CBOUND = 16;   // the constant c of the bounds c*n*u*kappa (calibrated headroom >= 20x, see DESIGN.md C10)
+static const LD CBOUND = 16;   // the constant c of the bounds c*n*u*kappa*growth (growth = || |L||U| || / ||A|| of the un-exchanged elimination, ~1 for the inputs the property names; see DESIGN.md C10)
 
 // matrix family: 0 diagonally dominant, 1 SPD, 2 prescribed condition number kappa (geometric singular values), 3 row permutation of a dominant matrix
 template <class T> inline void fill_family(T* A, size_t n, int fam, LD kappa, Rng& g) {
@@ -23,12 +23,13 @@ inline LD inv_residual(const Mat& A, const Mat& X, size_t n) {
 template <class T> inline void judge_inverse(Ctx& c, const T* a, const T* x, size_t n, bool pivoted, const char* what) {
     Mat A = la::to_ld(a, n * n), X = la::to_ld(x, n * n);
     LD kap = la::cond_inf(A, n);
-    { LD wl = la::worst_leading_cond(pivoted ? la::prepivot(A, n) : A, n); if (wl > 1e3L) { ++c.notes["not-judged:ill-conditioned-leading-block"]; return; } kap = std::max(kap, wl); }
+    LD rho;
+    { Mat Ap = pivoted ? la::prepivot(A, n) : A; LD wl = la::worst_leading_cond(Ap, n); if (wl > 1e3L) { ++c.notes["not-judged:ill-conditioned-leading-block"]; return; } kap = std::max(kap, wl); rho = la::lu_growth(Ap, n); }
     ++c.compared;
     if (!la::finite_all(X)) { c.fail("non-finite-result", std::string(what) + " returned NaN/inf for a matrix with cond " + std::to_string((double)kap)); return; }
-    LD res = inv_residual(A, X, n), bound = CBOUND * n * unit_roundoff<T>() * kap;
+    LD res = inv_residual(A, X, n), bound = CBOUND * n * unit_roundoff<T>() * kap * rho;
     double r = (double)(res / bound); if (r > c.max_ratio) c.max_ratio = r;
-    if (res > bound) { ++c.bad; if (c.mode.empty()) { c.mode = "residual-exceeds-bound"; char b[256]; snprintf(b, sizeof b, "%s: max(|AX-I|,|XA-I|)=%.3Lg > %.3Lg = 16*n*u*cond (n=%zu cond=%.3Lg)", what, res, bound, n, kap); c.first_bad = b; } }
+    if (res > bound) { ++c.bad; if (c.mode.empty()) { c.mode = "residual-exceeds-bound"; char b[256]; snprintf(b, sizeof b, "%s: max(|AX-I|,|XA-I|)=%.3Lg > %.3Lg = 16*n*u*cond*growth (n=%zu cond=%.3Lg growth=%.3Lg)", what, res, bound, n, kap, rho); c.first_bad = b; } }
 }
 
 template <InvCompType IT> struct InvPiv { static constexpr bool value = IT == InvCompType::SimpleInvPiv || IT == InvCompType::BlockLUPiv || IT == InvCompType::SimpleLUPiv; };
@@ -180,14 +181,15 @@ template <SolveCompType ST> struct SolvePiv { static constexpr bool value = ST =
 template <class T> inline void judge_solve(Ctx& c, const T* a, const T* x, const T* b, size_t n, size_t k, bool pivoted, const char* what) {
     Mat A = la::to_ld(a, n * n), X = la::to_ld(x, n * k), B = la::to_ld(b, n * k);
     LD kap = la::cond_inf(A, n);
-    { LD wl = la::worst_leading_cond(pivoted ? la::prepivot(A, n) : A, n); if (wl > 1e3L) { ++c.notes["not-judged:ill-conditioned-leading-block"]; return; } kap = std::max(kap, wl); }
+    LD rho;
+    { Mat Ap = pivoted ? la::prepivot(A, n) : A; LD wl = la::worst_leading_cond(Ap, n); if (wl > 1e3L) { ++c.notes["not-judged:ill-conditioned-leading-block"]; return; } kap = std::max(kap, wl); rho = la::lu_growth(Ap, n); }
     if (!la::finite_all(X)) { ++c.compared; c.fail("non-finite-result", std::string(what) + " returned NaN/inf"); return; }
     Mat AX = la::matmul(A, X, n, n, k);
     for (size_t col = 0; col < k; ++col) {
         LD res = 0, bn = 0; for (size_t i = 0; i < n; ++i) { res = std::max(res, fabsl(AX[i * k + col] - B[i * k + col])); bn = std::max(bn, fabsl(B[i * k + col])); }
-        LD bound = CBOUND * n * unit_roundoff<T>() * kap * bn;
+        LD bound = CBOUND * n * unit_roundoff<T>() * kap * rho * bn;
         ++c.compared; if (bound > 0) { double r = (double)(res / bound); if (r > c.max_ratio) c.max_ratio = r; }
-        if (res > bound) { ++c.bad; if (c.mode.empty()) { c.mode = "residual-exceeds-bound"; char bf[256]; snprintf(bf, sizeof bf, "%s: |Ax-b|=%.3Lg > %.3Lg = 16*n*u*cond*|b| (n=%zu col=%zu cond=%.3Lg)", what, res, bound, n, col, kap); c.first_bad = bf; } }
+        if (res > bound) { ++c.bad; if (c.mode.empty()) { c.mode = "residual-exceeds-bound"; char bf[256]; snprintf(bf, sizeof bf, "%s: |Ax-b|=%.3Lg > %.3Lg = 16*n*u*cond*growth*|b| (n=%zu col=%zu cond=%.3Lg growth=%.3Lg)", what, res, bound, n, col, kap, rho); c.first_bad = bf; } }
     }
 }
 template <class T, size_t N, SolveCompType ST, size_t K, int FAM>
